@@ -124,6 +124,7 @@ type Runner struct {
 	pool             *network.OneConnection // a finished run-stream connection object that may be recycled
 	lastRunCollector bool
 	lastRunState     network.VerifState
+	stale            bool            // the direct stream's connection object is to be replaced before the next case
 	TickBudget       int             // how many whole tick periods the Run stream may still wait for (cfg.go)
 	tickPaid         map[string]bool // (runnable is asked more than once per case)
 }
@@ -144,8 +145,11 @@ func (r *Runner) fresh() *network.OneConnection {
 // prepare puts the (reused) connection into the protocol state the case asks for.
 func (r *Runner) prepare(cs Case) *network.OneConnection {
 	c := r.conn
-	if c == nil {
+	if c == nil || r.stale {
+		// (stale: the previous case had a configuration history - whatever it left in the object must not be
+		// met by a later case whose replay would not contain that history)
 		c = r.fresh()
+		r.stale = false
 	}
 	c.VerifReset()
 	c.X = network.ConnectionStatus{ConnectedAt: time.Now(), Incomming: true}
@@ -372,6 +376,9 @@ func (r *Runner) Do(cs Case) (o Obs) {
 		_ = done
 	}
 	sort.Strings(o.Locks)
+	if cs.reconfigures() {
+		r.stale = true
+	}
 	for !hang && len(txpool.GetMPInProgressTicket) > 0 {
 		<-txpool.GetMPInProgressTicket // (taken by a Tick of this case for a pending getmp: the connection object lives on)
 	}
